@@ -1,6 +1,6 @@
 """C06 — $dynamicRef follows the dynamic scope exactly as specified."""
 from .. import suite, vjudge
-from ..wire import Obj
+from ..wire import Obj, Num
 
 ID = "C06"
 N_QUICK = 6000
@@ -473,11 +473,59 @@ def respell(rng, op):
     return {"op": op["op"], "args": a, "meta": dict(op["meta"], respelled=name)}
 
 
+def override_case(rng):
+    """An extension point overridden twice: a generic resource G whose items are `$dynamicRef '#N'`, a middle resource M that declares N
+    and refers to G, and sibling properties of the root that reach M either directly or through a resource of their own that declares N
+    again (an override of an override). Within ONE Validate call M is entered several times at the same stack depth, under prefixes that
+    do or do not declare N: each property has its own outermost declarer. Expected verdicts by construction."""
+    cons = [("number", lambda v: isinstance(v, Num)), ("integer", lambda v: isinstance(v, Num) and v.frac().denominator == 1),
+            ("string", lambda v: isinstance(v, str)), ("null", lambda v: v is None), ("boolean", lambda v: isinstance(v, bool))]
+    vals = [Num("1.5"), Num("2"), "s", None, True]
+    child = rng.choice(["list", "l"])
+    gen_ = Obj([("$id", "gen"), ("properties", Obj([(child, Obj([("items", Obj([("$dynamicRef", "#N")]))]))])),
+                ("$defs", Obj([("d", Obj([("$dynamicAnchor", "N")]))]))])
+    cm = rng.choice(cons)
+    mid = Obj([("$id", "mid"), ("$ref", "gen"), ("$defs", Obj([("t", Obj([("$dynamicAnchor", "N"), ("type", cm[0])]))]))])
+    k = rng.randint(2, 4)
+    names = rng.sample(["plain", "strict", "a", "b", "m", "z", "0"], k)
+    props, judge_of = [], {}
+    for i, nm in enumerate(names):
+        if rng.random() < 0.5:
+            sub = Obj([("$ref", "mid")])
+            if rng.random() < 0.3:
+                sub = Obj([("allOf", [Obj([("$ref", "mid")])])])         # one frame more: another depth
+            judge_of[nm] = cm[1]
+        else:
+            ci = rng.choice(cons)
+            sub = Obj([("$id", "ov%d" % i), ("$ref", "mid"), ("$defs", Obj([("t", Obj([("$dynamicAnchor", "N"), ("type", ci[0])]))]))])
+            judge_of[nm] = ci[1]
+        props.append((nm, sub))
+    root = Obj([("properties", Obj(props)), ("$defs", Obj([("gen", gen_), ("mid", mid)]))])
+    if rng.random() < 0.2:
+        # the root declares N as well: then it is the outermost declarer on every path
+        cr = rng.choice(cons)
+        root.get("$defs").set("rt", Obj([("$dynamicAnchor", "N"), ("type", cr[0])]))
+        judge_of = {nm: cr[1] for nm in names}
+    insts, expv = [], []
+    for _ in range(8):
+        ks = rng.sample(names, rng.randint(1, k))
+        rng.shuffle(ks)
+        kvs, ok = [], True
+        for nm in ks:
+            v = rng.choice(vals)
+            kvs.append((nm, Obj([(child, [v])])))
+            ok = ok and judge_of[nm](v)
+        insts.append(Obj(kvs))
+        expv.append(ok)
+    return {"op": "validate", "args": {"schema": root, "docs": [], "base": BASE, "loader": True, "insts": insts},
+            "meta": {"expect": expv, "resources": k + 2, "override": True}}
+
+
 def gen(rng, tier, n):
     ops = [o for o in suite.suite_ops("draft2020-12") if "dynamicRef" in o["meta"]["suite"] or "dynamic" in o["meta"]["suite"]]
     while len(ops) < n:
         r = rng.random()
-        o = chain(rng) if r < 0.46 else fork(rng) if r < 0.6 else dag(rng) if r < 0.68 else topo(rng)
+        o = chain(rng) if r < 0.42 else fork(rng) if r < 0.55 else override_case(rng) if r < 0.62 else dag(rng) if r < 0.7 else topo(rng)
         if rng.random() < 0.12:
             o = respell(rng, o)
         ops.append(o)
